@@ -565,6 +565,10 @@ section Doubles
 theorem b64_mul_ge (x f : B64) (hf : (1 : B64) ≤ f) (hx : x.bits < B64.INF) : x ≤ x * f :=
   B64.infl f hf x hx
 
+/-- multiplying by 1.0 is exact on doubles: representable values round to themselves
+    (`B64.rnd_exact`), so with `factor = 1.0` every delay is followed by itself -/
+theorem b64_mul_one (x : B64) (hx : x.bits < B64.INF) : x * 1 = x := B64.mul_one x hx
+
 /-- the order-layer hypotheses follow from the statement's plain ones over `B64`
     (`0 ≤ start` holds for every element of the carrier) -/
 theorem b64_validParams (p : Params B64) (h1 : p.start ≤ p.stop) (hs : 0 < p.stop)
